@@ -371,7 +371,7 @@ func runVars(ic *IC, ex *exec.Exec, env *Env, fn exec.Value, sh varShape, pkgs m
 		add(c.And(identShaped(ex, n), notKeyword(ex, n), c.Not(c.Eq(n, c.StrC("_")))), fmt.Sprintf("C12: identifier %d of the method is a valid, non-keyword identifier", i))
 	}
 	// A2: pairwise distinct
-	add(c.Distinct(names...), "C12: parameter and result identifiers are pairwise distinct")
+	add(c.Distinct(names...), "C12/C07: parameter and result identifiers are pairwise distinct (the -stub block declares the results next to the parameters)")
 	// A3: distinct from every import qualifier
 	var quals []*smt.Term
 	for _, e := range registryImports(ex, env.Repo, vr.reg) {
@@ -383,7 +383,7 @@ func runVars(ic *IC, ex *exec.Exec, env *Env, fn exec.Value, sh varShape, pkgs m
 			cs = append(cs, c.Not(c.Eq(n, q)))
 		}
 	}
-	add(c.And(cs...), "C12: no parameter or result identifier equals an import qualifier of the file")
+	add(c.And(cs...), "C12/C07: no parameter or result identifier equals an import qualifier of the file (result types are written out inside the -stub block)")
 	// A4: receiver and record variable
 	cs = nil
 	for _, n := range names {
@@ -595,6 +595,14 @@ func varsConfirm(ic *IC, ob *exec.Obligation) *Violation {
 	}
 	if prop == "C13" {
 		v.Confirmed = false // C13 needs the name itself; decided by varsNameKept below
+	}
+	if prop == "C07" || contains(v.Props, "C07") {
+		// C07's observation: the -stub mock must compile and return zero values; the replay generates with -stub
+		for _, f := range findings {
+			if strings.Contains(f, "does not type-check") {
+				v.Confirmed = true
+			}
+		}
 	}
 	v.Detail = short(tr, 700)
 	return v
